@@ -180,7 +180,7 @@ func c11BubbleGoroutines() string {
 		if fn == "" {
 			fn = lines[1]
 		}
-		if i := strings.Index(fn, "("); i > 0 {
+		if i := strings.LastIndex(fn, "("); i > 0 {
 			fn = fn[:i]
 		}
 		hdr := lines[0]
